@@ -149,6 +149,20 @@ def exercise(gd, acc, rng=None, all_subsets=True):
     from numba_scfg.core import transformations as T
 
     ctx = core.set_ctx(core.Ctx(None))
+    try:
+        _exercise(gd, acc, rng, all_subsets, ctx)
+    except Exception as e:
+        # the monitor has charged the query that raised; the history ends here
+        ctx.hit("direct.history_ended_by_exception." + type(e).__name__)
+        if not ctx.findings:
+            ctx.violation("C13", "query_history_raised:" + type(e).__name__, attach.exc_key(e))
+        acc.add_ctx(ctx, {"kind": "digraph", "g": gd}, nontrivial_hash=core.graph_hash(gd))
+        acc.counters["direct_graphs"] += 1
+
+
+def _exercise(gd, acc, rng, all_subsets, ctx):
+    from numba_scfg.core import transformations as T
+
     scfg = _make(gd)
     names = list(gd)
     ext = sorted({t for v in gd.values() for t in v} - set(names))
